@@ -163,6 +163,12 @@ class Flux(AgentExecutingComponent) :
 
         task = self._tasks.get(task_id)
 
+        if task is None:
+            # we do not know that task, or it was handed on already and later
+            # events (`finish` after an exception, `clean`, ...) do not matter
+            self._log.debug('flux event ignored: %s: %s', task_id, ename)
+            return
+
         # handle some special events, fallback to _event_map otherwise
         if ename == 'start':
             # start task timeout handling, no further action
@@ -219,11 +225,14 @@ class Flux(AgentExecutingComponent) :
                     self._log.debug('post-launch %s: %s [%s][%s]',
                                                              tid, ret, out, err)
                     if ret:
+                        del self._tasks[task_id]
                         self.advance_tasks(task, rps.FAILED,
                                            publish=True, push=False)
                         return
 
-        # otherwise we just advance to the found state
+        # otherwise we just advance to the found state.  All states we map to
+        # end the task's life in this component: it is handed on exactly once.
+        del self._tasks[task_id]
         self.advance_tasks(task, state, ts=event.timestamp,
                            publish=True, push=push)
 
@@ -277,6 +286,7 @@ class Flux(AgentExecutingComponent) :
 
             except:
                 self._log.exception('LM flux submit failed for %s', tid)
+                del self._tasks[tid]
                 self.advance_tasks(task, rps.FAILED, publish=True, push=False)
 
         self._lm.submit_tasks(parts)
